@@ -110,6 +110,7 @@ func (e *Engine) intrinsicFor(fn *ssa.Function) intrinsic {
 var initPkgs = map[string]bool{
 	"io":              true,
 	"encoding/base64": true,
+	"encoding/binary": true,
 }
 
 type Event struct {
@@ -164,6 +165,7 @@ type Machine struct {
 	prefs       map[*Term]string // preferred witness values of free atoms (witness hygiene)
 	inputs      map[string]Value // named symbolic inputs created by the harness API
 	inputOrder  []string
+	splitMemo   map[splitKey][2]*Term
 }
 
 func (m *Machine) addPC(t *Term) {
